@@ -348,6 +348,10 @@ def judgeOutput (id : String) (fs : List String) (outs : List String) : String :
           if op == .GetObject && expect.any (fun e => e.1 == "content_range") then 206
           else if op == .PutBucketPolicy then 204 else smithyStatus op
         let extra := header "x-verif-extra" == ["kept"]
+        -- the response body must respect its own hints (is_end_stream / size_hint), or an HTTP server truncates it
+        if !(header "@body-protocol").isEmpty then
+          specfail id ("output-body-protocol:" ++ opn) ("; ".intercalate (header "@body-protocol"))
+        else
         if st != wantStatus then specfail id ("output-status:" ++ opn) s!"status={status} expected={wantStatus}"
         else if !extra then specfail id "output-extra-header-lost" opn
         else if !specBad.isEmpty then specfail id ("output-member:" ++ opn) ("; ".intercalate specBad)
